@@ -43,5 +43,5 @@ def drive(ctx, name, args, label, shards=None, env=None):
     t = os.path.join(ctx.scratch, "rx-%s.ndjson" % name)
     ctx.run_driver(["rx", "-seed", ctx.seed, "-out", t] + args)
     s = json.load(open(t + ".summary.json"))
-    ctx.validate("", "Trace_RxPath", "Trace_RxPath.cfg", t, label=label, shards=shards, extra_env=env)
+    ctx.validate("", "Trace_RxPath", "Trace_RxPath.cfg", t, label=label, shards=shards, extra_env=env, stack="512m")
     return s
